@@ -127,13 +127,12 @@ func (Prop) Gen(r *core.Rand, tier string) interface{} {
 	if tier == "thorough" && r.Chance(35) {
 		c.Bound = 1 + r.Intn(2)
 	}
-	k := 30 + r.Intn(250)
-	if r.Chance(15) {
+	k := 100 + r.Intn(500)
+	density := []int{5, 15, 40, 80}[r.Intn(4)]
+	if r.Chance(10) {
 		k = 0
 	}
-	for i := 0; i < k; i++ {
-		c.Vec = append(c.Vec, uint16(r.Intn(64)))
-	}
+	c.Vec = sched.GenVector(r.Intn, k, density)
 	return c
 }
 
